@@ -11,7 +11,7 @@ import random
 import traceback
 from typing import Any
 
-from amaranth import Cat
+from amaranth import Cat, Elaboratable, Module
 from transactron.lib import AdapterTrans
 from transactron.testing import SimpleTestCircuit, PysimSimulator, TestbenchIO
 from transactron.testing.functions import data_const_to_dict
@@ -60,6 +60,48 @@ class RivalCircuit(SimpleTestCircuit):
             m.submodules[f"rival{k}"] = tb
             self._rivals[p] = tb
         return m
+
+
+class RivalSet(Elaboratable):
+    """Second caller transactions for the given provided methods, for harnesses with their own drivers (see `rival_step`)."""
+
+    def __init__(self, methods: dict):
+        self.tb = {k: TestbenchIO(AdapterTrans.create(meth)) for k, meth in methods.items()}
+
+    def elaborate(self, platform):
+        m = Module()
+        for i, tb in enumerate(self.tb.values()):
+            m.submodules[f"rival{i}"] = tb
+        return m
+
+    def request(self, ctx, rnd, key, main_io, en: bool, data=None, rec: Rec | None = None):
+        """Drive the main caller and its rival for one cycle: the request `en` is issued by the main caller, the rival or both (same arguments)."""
+        tb = self.tb[key]
+        who = "main"
+        if en:
+            x = rnd.random()
+            who = "both" if x < 0.45 else "rival" if x < 0.6 else "main"
+            if who == "both" and rec is not None:
+                rec.count("cycles_with_two_callers_requesting_one_method")
+        ctx.set(main_io.adapter.en, en and who != "rival")
+        ctx.set(tb.adapter.en, en and who != "main")
+        if data is not None:
+            ctx.set(main_io.adapter.data_in, data)
+            ctx.set(tb.adapter.data_in, data)
+
+    def signals(self):
+        return [x for tb in self.tb.values() for x in (tb.adapter.done, tb.adapter.data_out)]
+
+    def fold(self, rec: Rec, case, key, main_done, main_out, vals, detail=None):
+        """vals = sampled values of `signals()`; returns (done, out) of the port as seen by one logical caller, after checking exclusivity."""
+        j = list(self.tb).index(key)
+        rdone, rout = bool(vals[2 * j]), vals[2 * j + 1]
+        rec.check("exclusive_method_serves_at_most_one_caller_per_cycle", not (rdone and bool(main_done)), case=case,
+                  detail=dict(detail or {}, port=key, main_done=bool(main_done), rival_done=rdone))
+        if rdone and not main_done:
+            rec.count("calls_served_to_the_rival_caller")
+            return True, rout
+        return bool(main_done), main_out
 
 
 class Model:
